@@ -307,8 +307,8 @@ func (l *List) Accept(sta funcGen.Stack[Value]) (*List, error) {
 	return NewListFromIterable(func(st funcGen.Stack[Value]) iterator.Producer[Value] {
 		// In parallel mode the consumer is called from another goroutine than the
 		// one that iterates the source list, so both must not share a stack.
-		return iterator.FilterAuto[Value](l.iterable(funcGen.NewEmptyStack[Value]()), func() func(v Value) (bool, error) {
-			s := funcGen.NewEmptyStack[Value]()
+		return iterator.FilterAuto[Value](l.iterable(st.NewChildStack()), func() func(v Value) (bool, error) {
+			s := st.NewChildStack()
 			return func(v Value) (bool, error) {
 				eval, err := f.Eval(s, v)
 				if err != nil {
@@ -331,8 +331,8 @@ func (l *List) Map(sta funcGen.Stack[Value]) (*List, error) {
 	return NewListFromSizedIterable(func(st funcGen.Stack[Value]) iterator.Producer[Value] {
 		// In parallel mode the consumer is called from another goroutine than the
 		// one that iterates the source list, so both must not share a stack.
-		return iterator.MapAuto[Value, Value](l.iterable(funcGen.NewEmptyStack[Value]()), func() func(i int, v Value) (Value, error) {
-			s := funcGen.NewEmptyStack[Value]()
+		return iterator.MapAuto[Value, Value](l.iterable(st.NewChildStack()), func() func(i int, v Value) (Value, error) {
+			s := st.NewChildStack()
 			return func(i int, v Value) (Value, error) {
 				return f.Eval(s, v)
 			}
@@ -412,7 +412,7 @@ func (l *List) Merge(sta funcGen.Stack[Value]) (*List, error) {
 	if otherList, ok := other.ToList(); ok {
 		return NewListFromIterable(func(st funcGen.Stack[Value]) iterator.Producer[Value] {
 			// both lists are iterated by their own goroutines, so they need their own stacks
-			return iterator.Merge(l.iterable(funcGen.NewEmptyStack[Value]()), otherList.iterable(funcGen.NewEmptyStack[Value]()),
+			return iterator.Merge(l.iterable(st.NewChildStack()), otherList.iterable(st.NewChildStack()),
 				func(a, b Value) (bool, error) {
 					st.Push(a)
 					st.Push(b)
